@@ -33,10 +33,14 @@ def _zr(v):
 
 
 # ------------------------------------------------------------------ the contract of _order_nodes used by the gather obligations
-def _order_summary(ctx):
+def _order_summary(ctx, calls=None):
     def summary(temp_face, node_0, node_central, n_edges, dual_node_x, dual_node_y, dual_node_z, max_edges):
         e = ctx.eng
         n = int(n_edges)
+        if calls is not None:
+            calls.append({"temp": [sc.z(v) for v in temp_face.flat_list()], "node_0": [sc.z(v) for v in node_0.flat_list()],
+                          "central": [sc.z(v) for v in node_central.flat_list()], "n": n,
+                          "dual": [[sc.z(v) for v in a.flat_list()] for a in (dual_node_x, dual_node_y, dual_node_z)]})
         t = [sc.z(v) for v in temp_face.flat_list()][:n]
         out = [t[0]]
         fresh = [e.fresh("ord", "Int") for _ in range(n - 1)]
@@ -99,7 +103,8 @@ def make_faces(oid, n_node, max_val, min_val=1, tiers=("quick", "thorough"), cos
         w = world()
         gd = w.G["uxarray.grid.dual"]
         saved = gd["_order_nodes"]
-        gd["_order_nodes"] = _order_summary(ctx)
+        calls = []
+        gd["_order_nodes"] = _order_summary(ctx, calls)
         try:
             lon, lat = P_LON[:n_node], P_LAT[:n_node]
             rows = [r for r in P_ROWS]
@@ -125,6 +130,25 @@ def make_faces(oid, n_node, max_val, min_val=1, tiers=("quick", "thorough"), cos
                     conds.append(z3.Implies(rank == r, z3.And(members, padding)))
                 ctx.prove(f"the dual face of node {i} (the i-th kept node keeps its rank) has exactly the faces meeting at the node, padding only at the end",
                           z3.Implies(keep[i], z3.And(*conds)))
+            # what the ordering kernel is asked: the ring of node i is ordered about node i itself, starting from its first face's centre
+            nxyz = [[_zr(v) for v in a.values.flat_list()] for a in (g.node_x, g.node_y, g.node_z)]
+            fxyz = [[_zr(v) for v in a.values.flat_list()] for a in (g.face_x, g.face_y, g.face_z)]
+
+            def sel(arr, idx):
+                out = arr[-1]
+                for q in range(len(arr) - 2, -1, -1):
+                    out = z3.If(idx == q, arr[q], out)
+                return out
+            for c, call in enumerate(calls):
+                cl = []
+                for i in range(n_node):
+                    rank = z3.Sum([z3.If(keep[j], 1, 0) for j in range(i)]) if i else z3.IntVal(0)
+                    right = z3.And(*[_zr(call["central"][a]) == nxyz[a][i] for a in range(3)],
+                                   *[_zr(call["node_0"][a]) == sel(fxyz[a], nf[i][0]) for a in range(3)],
+                                   call["n"] == val[i],
+                                   *[_zr(x) == y for a in range(3) for x, y in zip(call["dual"][a], fxyz[a])])
+                    cl.append(z3.Implies(z3.And(keep[i], rank == c), right))
+                ctx.prove(f"ordering call {c}: ring ordered about its own primal node, from its first face's centre, over the face-centre arrays", z3.And(*cl))
             ctx.reachable("a node with fewer than three faces is skipped", z3.Or(*[z3.Not(k) for k in keep]) if min_val < 3 else True)
         finally:
             gd["_order_nodes"] = saved
@@ -156,6 +180,24 @@ def make_faces(oid, n_node, max_val, min_val=1, tiers=("quick", "thorough"), cos
             want = sorted(nfm[i][:val[i]])
             if sorted(rows[r]) != want or any(x == F for x in raw[r][:val[i]]):
                 return f"node-face table {nfm}: dual face {r} (primal node {i}) is {raw[r]}, faces at the node are {want}"
+        # ring order: reference model of the angular sort, about the face's OWN primal node, starting from its first face
+        ll = lambda lo, la: np.array([math.cos(math.radians(la)) * math.cos(math.radians(lo)), math.cos(math.radians(la)) * math.sin(math.radians(lo)), math.sin(math.radians(la))])      # noqa: E731
+        for r, i in enumerate(kept):
+            c = ll(P_LON[i], P_LAT[i])
+            ring = nfm[i][:val[i]]
+            a = ll(flon[ring[0]], flat[ring[0]])
+            u0, nrm = a - c, np.cross(a, c)
+            ang = {}
+            for f in ring[1:]:
+                u = ll(flon[f], flat[f]) - c
+                t = math.acos(max(-1.0, min(1.0, float(np.dot(u0, u) / (np.linalg.norm(u0) * np.linalg.norm(u))))))
+                ang[f] = (2 * math.pi - t) if float(np.dot(nrm, u)) > 0 else t
+            vals = sorted(ang.values())
+            if any(b_ - a_ < 1e-6 for a_, b_ in zip(vals, vals[1:])) or (vals and (vals[0] < 1e-6 or vals[-1] > 2 * math.pi - 1e-6)):
+                continue          # degenerate ring for these centres: no verdict
+            want_ring = [ring[0]] + sorted(ang, key=ang.get)
+            if rows[r] != want_ring:
+                return f"node-face table {nfm}, centres (lon {flon}, lat {flat}): dual face {r} of primal node {i} lists {rows[r]}, counter-clockwise order about node {i} is {want_ring}"
         return None
 
     return Obligation(oid, f"dual faces gather exactly the faces at each node ({n_node} nodes, valence {min_val}..{max_val})", setup, run, replay, exact=True,
